@@ -43,6 +43,11 @@ CHECKS = {
          "Every value kind of the pool is tested in 13 syntactic contexts and must have the table's truth value in all of them; chains of up to 5 branches with every truth assignment are rendered in 7 nesting contexts and two layouts, with conditions wrapped in a recording helper: exactly the first truthy branch's marker is output and exactly the conditions up to it are evaluated.",
          "Trusted: the truth table as transcribed from the property text; recording helper is exact (single-threaded renders).",
          "DESIGN.md §5 C07"),
+ "C08": ("exploration",
+         "runtime differential monitor: generated loops rendered by the real engine vs. a reference loop interpreter; multiset comparison for maps; engine-vs-engine unrolling relation for control-free bodies",
+         "Random loops over 30 iterables (all kinds named in the property, lengths 0-6, nil and non-iterables) with bodies from a statement grammar that places if-guarded break/continue/return at every position, before/after/inside inner loops, function literals and if blocks, in multi-tag and single-tag layout. Output must equal the reference interpreter's (once per element, in order, control statements keeping what the iteration produced); non-iterables must be errors; loops lexically valid must not be rejected.",
+         "Trusted: the 60-line reference interpreter; the generator avoids the corners the property leaves open (break in map bodies, text in silent if before a control statement).",
+         "DESIGN.md §5 C08"),
 }
 NOT_YET = "check not built yet in this round (see DESIGN.md §5 for the planned monitor)"
 
